@@ -220,7 +220,8 @@ def pair_up(typed, tr, out):
             if ok:
                 return True
             del out[mark:]
-    if tr["k"] in ("and", "or"):
+    # short-circuit shapes: only a False-typed node can stand for a whole &&, only a True-typed one for a whole ||
+    if (tr["k"] == "and" and typed["t"] == {"bool": "false"}) or (tr["k"] == "or" and typed["t"] == {"bool": "true"}):
         mark = len(out)
         out.append((typed, tr))          # the whole && / || has the (singleton) type of its left operand
         if n[0] == "lit":
